@@ -245,6 +245,7 @@ var cleanValuePool = []string{"", "v", "a b", "a: b", "a:b", "x=y", "=", "?", "=
 
 func genC19(r *rng, n int, tier string, emit func(string, ...string)) {
 	genWfault(r, n/10+20, emit)
+	genUnmPair(r, n/12+10, emit) // one parser object for two header sections: nothing of the first may show in the second
 	// logical header lines around the sizes at which a reader might give up (4 KiB, 64 KiB read buffers): one physical line
 	// of exactly that length, or a folded field whose unfolded value exceeds it - the serialization puts it on ONE line
 	for _, total := range []int{4095, 4096, 4097, 65535, 65536, 65537, 66000} {
